@@ -11,6 +11,8 @@ import DclabModel.DriveUtil
     copy                      `rtdc_copy`                         export <bits>   filtered export
     stored                    → `<min> <max> <mean>` as stored (`-` = absent)
     report                    → `<min> <max> <mean> ## <true min> <true max> <true mean> ## <mean under the old rule> ## <n>`
+    rcount <c>                → summaries of what a file with event count c hands out (`exposed`: everything) ##
+                              report of a reader trimming to c events ## truth of the trimmed values
     child <v> …  | cdata <v> … (data change) | mask <bits> | rejuv | query      hierarchy child of a parent with these values
     cview <bits> <bits> …     after `child`/`cdata`: summaries of the member whose ancestors have these `filter.all`
                               arrays (parent first, root last) = `SummaryView.childReport` (nested C04 views)
@@ -88,6 +90,11 @@ def handle (d : D) (line : String) : D × String :=
     | some s, some o =>
       (d, showSumm (report s) ++ " ## " ++ showSumm (truth s.data) ++ " ## " ++
           showVal (report o).mean ++ s!" ## {s.data.length}")
+    | _, _ => (d, "none")
+  | ["rcount", c] => match d.fx, c.toNat? with
+    | some s, some c =>
+      (d, showSumm (truth (exposed c s)) ++ " ## " ++ showSumm (reportTrimmed c s) ++ " ## " ++
+          showSumm (truth (exposedTrimmed c s)) ++ s!" ## {(exposed c s).length}")
     | _, _ => (d, "none")
   | "child" :: vs => match vs.mapM parseVal with
     | some l => ({ d with ch := { parent := l, mask := l.map (fun _ => true), arr := none,
